@@ -93,6 +93,25 @@ def rules(ctx):
         ctx.inst('R05.2', fn, '%s returns self' % name, okr,
                  "returns self on every path" if okr else
                  "%s does not return self on every path: `a op= b` rebinds a to something else / None" % name)
+        # sum and difference merge term by term: every store into self accumulates onto the coefficient already there
+        # (two keys of a plain dict can denote one monomial - (0, 1) and (1, 0) - and an existing term is kept)
+        if name in ('__iadd__', '__isub__'):
+            want = ast.Add if name == '__iadd__' else ast.Sub
+            for m in walk_no_nested(strip_docstring(fn.node.body)):
+                tg = m.targets if isinstance(m, ast.Assign) else [m.target] if isinstance(m, ast.AugAssign) else []
+                for t in tg:
+                    if not (isinstance(t, ast.Subscript) and is_name(t.value, sn)):
+                        continue
+                    if isinstance(m, ast.AugAssign):
+                        oka = isinstance(m.op, want)
+                    else:
+                        v_ = m.value
+                        oka = isinstance(v_, ast.BinOp) and isinstance(v_.op, want) and src(v_.left) == src(t)
+                    ctx.inst('R05.2', fn, m, oka,
+                             "accumulates onto the stored coefficient" if oka else
+                             "`%s` in %s does not accumulate (%s=) onto the coefficient already stored under that key: terms of "
+                             "the operand that denote one monomial, or a term self already has, are overwritten instead of summed"
+                             % (src(m)[:60], name, '+' if want is ast.Add else '-'))
         # loops that write self must iterate a snapshot
         for lp in [n for n in g.stmts() if isinstance(n, ast.For)]:
             writes_self = any(isinstance(m, (ast.Assign, ast.AugAssign)) and any(
@@ -382,6 +401,30 @@ def canonical_order(ctx, rid):
                      % src(x)[:60])
     if not n:
         raise AnalysisError("canonical_order: no sort found in any squash_key")
+    # the key itself: (something of the label's type only, the label itself) - labels of one type keep their natural order
+    ok_fn = P.func('_ordering_key.ordering_key')
+    x = ok_fn.params[0]
+    rets = [r for r in walk_no_nested(strip_docstring(ok_fn.node.body)) if isinstance(r, ast.Return)]
+    ok = bool(rets)
+    why = ''
+    for r in rets:
+        v = expand_names(ok_fn.node, r.value) if r.value is not None else None
+        if not (isinstance(v, ast.Tuple) and len(v.elts) >= 2 and is_name(v.elts[-1], x)):
+            ok, why = False, "`%s` does not end in the label itself" % (src(v) if v is not None else None)
+            continue
+        for e in v.elts[:-1]:
+            typed = set()
+            for par in ast.walk(e):
+                if isinstance(par, ast.Call) and is_name(par.func, 'type') and len(par.args) == 1 and is_name(par.args[0], x):
+                    typed.add(id(par.args[0]))
+                if isinstance(par, ast.Attribute) and par.attr == '__class__' and is_name(par.value, x):
+                    typed.add(id(par.value))
+            if any(isinstance(nm, ast.Name) and nm.id == x and id(nm) not in typed for nm in ast.walk(e)):
+                ok, why = False, "leading component `%s` depends on the label's value" % src(e)
+    ctx.inst(rid, ok_fn, rets[0] if rets else 'def ordering_key', ok,
+             "ordering_key(x) = (type of x, x): labels of one type sort in their natural order" if ok else
+             "ordering_key is not (a function of type(x), x): %s - labels of one type are no longer stored in their natural "
+             "sorted order (e.g. 10 before 2 by text), so results are not the canonical sorted dict" % why)
 
 
 def inplace_validation(ctx, rid):
